@@ -424,7 +424,8 @@ class Renderer:
                 L.append(self.binding(b, group[1:]))
                 i += len(group)
             if t.get("finals"):
-                L.append(Line(f"{self.kw('final')} :: " + ", ".join(self.idn(f) for f in t["finals"]),
+                fdc = " :: " if self.flag("final-dcolon", 3, 4) else " "        # the `::` is optional
+                L.append(Line(f"{self.kw('final')}{fdc}" + ", ".join(self.idn(f) for f in t["finals"]),
                               t.get("final_doc"), "post"))
         L.append(Line(self.end("type", t["name"]) if True else ""))
         return L
